@@ -330,6 +330,38 @@ func main() {
 		}
 		w.Count(fmt.Sprintf("procs:%d", bucket(procs)))
 	}
+	if a.Extra["stress"] != "" {
+		// widened search: hammer the concurrent-cancel window (a decoder goroutine's filter callback
+		// cancels while Scan is blocked in Next); only trials that violate the prefix property or
+		// lose the error are recorded, plus a few samples
+		trials := int(2500 * a.Scale)
+		kept := 0
+		for t := 0; t < trials && kept < 3; t++ {
+			procs := 1 + rng.Intn(2)
+			f := pipesup.GenFile(rng, 10, false)
+			at := int64(1 + rng.Intn(len(f.Items)-1))
+			r := scan(f, procs, 0, a.Seed*31+int64(t), at)
+			exp := f.Expected()
+			bad := len(r.IDs) > len(exp) || (r.Err == 0 && len(r.IDs) < len(exp))
+			for i := 0; !bad && i < len(r.IDs); i++ {
+				bad = r.IDs[i] != exp[i]
+			}
+			if !bad && t%500 != 0 {
+				continue
+			}
+			if bad {
+				kept++
+			}
+			c := &wire.Case{Class: "cut-stress"}
+			c.Int(2).Int(int64(procs)).Bool(!f.Header)
+			itemsToks(c, f)
+			c.Int(at).Ints(r.IDs).Int(r.Err)
+			c.Desc = map[string]interface{}{"procs": procs, "header": f.Header, "items": f.Items, "cancel_in_filter_of_block": at,
+				"delivered": r.IDs, "err": r.Err, "expected": exp, "trial": t}
+			w.Add(c)
+		}
+		w.Count("stress_trials")
+	}
 	nRich := int(45 * a.Scale)
 	if a.Tier == "thorough" {
 		nRich *= 10
